@@ -17,7 +17,7 @@ from .. import translate as T
 
 PID = "C02"
 TITLE = "Mesh construction normalises raw data, whatever its form"
-LEAN_MODULES = ["Mouette.Props.C02"]
+LEAN_MODULES = ["Mouette.Props.C02", "Mouette.Props.C02Source"]
 REQUIRED_THEOREMS = [
     # translated tables
     "tet_tables_agree", "hex_tables_agree", "generated_tables_eq_model", "tet_face_i_omits_vertex_i",
@@ -41,6 +41,11 @@ REQUIRED_THEOREMS = [
     "completion_skip_bridge", "completion_appends_only_valid_edges",
     # round 2: row container types
     "prepare_commutes_with_forgetting_row_type", "prepare_depends_on_row_values_only", "prepared_rows_are_lists_or_tuples",
+    # round 4: function BODIES translated statement by statement (Generated/C02Bodies.lean) and their bridges (Props/C02Source.lean)
+    "corner_append_source", "complete_faces_bridge", "complete_edges_bridge", "prepare_vertices_bridge",
+    "prepare_vertices_coordinates", "vertices_are_float_source", "vertices_3d_source", "gen_face_corners_bridge",
+    "gen_cell_corners_bridge", "gen_cell_faces_refines", "step_runs_translated_body", "prepare_runs_translated_bodies",
+    "edges_normalised_source",
 ]
 TRUSTED = [
     "Lean 4.33.0 kernel; axioms ⊆ {propext, Classical.choice, Quot.sound}",
@@ -52,6 +57,12 @@ TRUSTED = [
     "the corner appends, _compute_dimensionality, _instanciate_raw_mesh_data and Mesh.__init__ is read with Python ast into the "
     "vocabulary of Lemmas/C02Steps.lean, whose interpreters (runProgram, completeEdgesWith, cornerLists, dimBy, runInst, visible) "
     "are hand-written",
+    "translator (vlib/gen/c02_translate.py): the BODIES of _complete_faces_from_cells, _complete_edges_from_faces, _prepare_vertices, "
+    "_generate_face_corners, _generate_cell_corners, _generate_cell_faces (mesh_data.py) and CornerDataContainer.append "
+    "(data_container.py) are compiled statement by statement into state-passing Lean definitions (Generated/C02Bodies.lean); trusted: "
+    "that the Lean text denotes the Python statements, with the primitives of Model/PrepareSource.lean as the meaning of "
+    "DataContainer.append, set/dict operations, keyify, numpy dtype kinds; reading a local that is only bound under `if/elif` "
+    "(faces_C of _generate_cell_faces) is totalised, the bridge carries the tetrahedron/hexahedron hypothesis",
     "row-typed model prepareR (Lemmas/C02Rows.lean) tied to the code by the K section of the correspondence: type(row) of every "
     "stored edge/face/cell row for list, tuple and numpy input rows",
     "Python set/dict of key tuples abstracted to lists with membership; numpy int rows abstracted to integer lists "
@@ -1063,6 +1074,9 @@ def _tables_of(fn, unpack_src):
     for node in ast.walk(fn):
         if not isinstance(node, ast.If): continue
         t = node.test
+        if isinstance(t, ast.Compare) and len(t.ops) == 1 and isinstance(t.ops[0], ast.Eq) and isinstance(t.left, ast.Constant) \
+                and isinstance(t.comparators[0], ast.Call):
+            t = ast.Compare(t.comparators[0], t.ops, [t.left])            # `4 == len(C)` reads as `len(C) == 4`
         if not (isinstance(t, ast.Compare) and len(t.ops) == 1 and isinstance(t.ops[0], ast.Eq) and isinstance(t.left, ast.Call)
                 and isinstance(t.left.func, ast.Name) and t.left.func.id == "len" and len(t.left.args) == 1
                 and isinstance(t.left.args[0], ast.Name) and t.left.args[0].id == unpack_src
@@ -1137,7 +1151,87 @@ def translate():
     T.write_generated("C02Tables", body)
     from . import c02_structure
     sites += c02_structure.translate_structure()
+    from ..gen import c02_translate
+    sites += c02_translate.translate_bodies()
     return sites
+
+
+# ------------------------------------------------------------------------------------------------------------
+# which function of the anchor files is tied to the model how (goes into the evidence through core._source_map)
+#   translated   a Generated definition is produced from the body on every run AND a bridge theorem of REQUIRED_THEOREMS uses it
+#   modelled     hand-written in Model/Prepare.lean (or a primitive of Model/PrepareSource.lean), tied by the correspondence run
+#   oracle-only  only exercised by the harness / oracle (no model counterpart)
+# ------------------------------------------------------------------------------------------------------------
+_MD, _MM, _BS, _DC = "mouette/mesh/mesh_data.py", "mouette/mesh/mesh.py", "mouette/mesh/datatypes/base.py", "mouette/mesh/data_container.py"
+SOURCE_MAP = {
+    # ---- mesh_data.py
+    f"{_MD}::RawMeshData.__init__": "modelled",                      # fresh containers / `rewrap` (RawMeshData(mesh))
+    f"{_MD}::RawMeshData.id_vertices": "modelled",                   # shape-checked by the translator: `return range(len(self.x))`
+    f"{_MD}::RawMeshData.id_edges": "modelled",
+    f"{_MD}::RawMeshData.id_faces": "modelled",
+    f"{_MD}::RawMeshData.id_cells": "modelled",
+    f"{_MD}::RawMeshData.id_facecorners": "out-of-scope: not used by the construction code",
+    f"{_MD}::RawMeshData.id_cellcorners": "out-of-scope: not used by the construction code",
+    f"{_MD}::RawMeshData.dimensionality": "modelled",
+    f"{_MD}::RawMeshData._compute_dimensionality": "translated",     # C02S.dimChain / dimensionality_bridge
+    f"{_MD}::RawMeshData.prepare": "translated",                     # C02S.prepareProgram / prepare_follows_source_structure
+    f"{_MD}::RawMeshData._prepare_vertices": "translated",           # C02B.prepareVertices / prepare_vertices_bridge
+    f"{_MD}::RawMeshData._prepare_edges": "modelled",                # only its nested is_valid is translated
+    f"{_MD}::RawMeshData._prepare_edges.is_valid": "translated",     # C02S.isValid / is_valid_bridge
+    f"{_MD}::RawMeshData._prepare_faces": "modelled",                # row-typed model prepareFacesR (Lemmas/C02Rows)
+    f"{_MD}::RawMeshData._generate_face_corners": "translated",      # C02B.genFaceCorners / gen_face_corners_bridge
+    f"{_MD}::RawMeshData._prepare_cells": "modelled",
+    f"{_MD}::RawMeshData._generate_cell_corners": "translated",      # C02B.genCellCorners / gen_cell_corners_bridge
+    f"{_MD}::RawMeshData._generate_cell_faces": "translated",        # C02B.genCellFaces / gen_cell_faces_refines
+    f"{_MD}::RawMeshData._complete_edges_from_faces": "translated",  # C02B.completeEdges / complete_edges_bridge
+    f"{_MD}::RawMeshData._complete_faces_from_cells": "translated",  # C02B.completeFaces / complete_faces_bridge
+    # ---- mesh.py
+    f"{_MM}::_instanciate_raw_mesh_data": "translated",              # C02S.instProgram / instantiate_follows_source_structure
+    f"{_MM}::load": "oracle-only",                                   # the file route: harness writes .obj/.mesh, reads it back (readers are C04's)
+    f"{_MM}::save": "oracle-only",                                   # save -> load histories
+    f"{_MM}::from_arrays": "modelled",                               # Prepare.fromArrays
+    f"{_MM}::copy": "out-of-scope: copies a finished mesh, no construction from raw data (C12/C13)",
+    f"{_MM}::merge": "out-of-scope: merges finished meshes (C16)",
+    f"{_MM}::reorder_vertices": "out-of-scope: renumbering of a finished mesh",
+    # ---- datatypes/base.py
+    f"{_BS}::Mesh.__init__": "translated",                           # C02S.meshInitTable / mesh_init_bridge, rewrap_follows_mesh_init
+    # ---- data_container.py
+    f"{_DC}::_BaseDataContainer.__init__": "modelled",
+    f"{_DC}::_BaseDataContainer.empty": "out-of-scope: abstract",
+    f"{_DC}::_BaseDataContainer.clear": "out-of-scope: abstract",
+    f"{_DC}::_BaseDataContainer.attributes": "modelled",
+    f"{_DC}::_BaseDataContainer.create_attribute": "modelled",       # PrepSrc.createFlagAttr / Attr records
+    f"{_DC}::_BaseDataContainer.register_array_as_attribute": "out-of-scope: attribute API (C05); the harness creates dense attributes through create_attribute",
+    f"{_DC}::_BaseDataContainer.delete_attribute": "out-of-scope: attribute API (C05)",
+    f"{_DC}::_BaseDataContainer.has_attribute": "modelled",          # Prepare.hasAttr
+    f"{_DC}::_BaseDataContainer.get_attribute": "modelled",
+    f"{_DC}::_BaseDataContainer.append": "out-of-scope: abstract",
+    f"{_DC}::DataContainer.__init__": "modelled",
+    f"{_DC}::DataContainer.__getitem__": "modelled",
+    f"{_DC}::DataContainer.__setitem__": "modelled",
+    f"{_DC}::DataContainer.__iter__": "modelled",
+    f"{_DC}::DataContainer.__repr__": "out-of-scope: printing",
+    f"{_DC}::DataContainer.__str__": "out-of-scope: printing",
+    f"{_DC}::DataContainer.__len__": "modelled",
+    f"{_DC}::DataContainer.size": "out-of-scope: alias of __len__, not used by the construction code",
+    f"{_DC}::DataContainer.empty": "modelled",
+    f"{_DC}::DataContainer.clear": "out-of-scope: not used by the construction code",
+    f"{_DC}::DataContainer.append": "modelled",                      # PrepSrc.edgesAppend / facesAppend (row appended, attributes expanded by one)
+    f"{_DC}::DataContainer.__iadd__": "oracle-only",                 # how the harness fills raw containers
+    f"{_DC}::CornerDataContainer.__init__": "modelled",
+    f"{_DC}::CornerDataContainer.__getitem__": "oracle-only",        # later-query battery
+    f"{_DC}::CornerDataContainer.element": "oracle-only",
+    f"{_DC}::CornerDataContainer.adj": "oracle-only",
+    f"{_DC}::CornerDataContainer.__iter__": "oracle-only",
+    f"{_DC}::CornerDataContainer.__repr__": "out-of-scope: printing",
+    f"{_DC}::CornerDataContainer.__str__": "out-of-scope: printing",
+    f"{_DC}::CornerDataContainer.size": "out-of-scope: alias of __len__",
+    f"{_DC}::CornerDataContainer.__len__": "modelled",               # shape-checked by the translator: `return len(self._elem)`
+    f"{_DC}::CornerDataContainer.empty": "oracle-only",
+    f"{_DC}::CornerDataContainer.clear": "out-of-scope: not used by the construction code",
+    f"{_DC}::CornerDataContainer.append": "translated",              # C02B.cornerAppend / corner_append_source
+    f"{_DC}::CornerDataContainer.__iadd__": "out-of-scope: not used by the construction code",
+}
 
 
 MANIFEST = {
@@ -1151,7 +1245,11 @@ MANIFEST = {
                    "Python ast on every run and the table theorems (tables agree, face i omits vertex i, consistent orientation, hex edges "
                    "covered twice) are re-checked by decide; so is the control skeleton (ordered steps of prepare() and their config guards, the "
                    "edge validity predicate, the hard_edges guard, corner append argument order, dimensionality chain, "
-                   "_instanciate_raw_mesh_data, Mesh.__init__), each with a bridge theorem to the model. prepare commutes with forgetting "
+                   "_instanciate_raw_mesh_data, Mesh.__init__), each with a bridge theorem to the model; and (round 4) so are the function BODIES of "
+                   "face completion, edge completion, vertex preparation (padding + int->float), face/cell corner generation, cell-face "
+                   "generation and CornerDataContainer.append, compiled statement by statement and bridged to the model by fold "
+                   "invariants, so that the model's prepare is proved to be the translated step program run on the translated bodies "
+                   "(prepare_runs_translated_bodies; only _prepare_edges stays hand-modelled inside it). prepare commutes with forgetting "
                    "the container type (list/tuple/numpy) of index rows and leaves no numpy row. The model is tied to the code by an exact container correspondence per "
                    "container type and a direct oracle including a later-query battery on numpy-built meshes."),
     "level_note": ("Trusted: Lean kernel + propext/Classical.choice/Quot.sound; the hand-written model (checked against the code on the "
